@@ -241,6 +241,22 @@ def generate(seed, tier):
         return {"config": {"nv": False, "fault_run": False, "wide": k},
                 "ops": [["widelist", 0, k],
                         ["evalall", {"ev": 0, "cached": False, "vars": _gen_vars(r)}, 0, [0, 1]]]}
+    if not nv and r.random() < 0.03:
+        # a long sum / product and the same operands in another order (longer than any
+        # plausible cut-off for order normalisation)
+        n = r.randint(33, 60)
+        cls = r.choice(["Sum", "Product"])
+        kids = [["n", "Product" if cls == "Sum" else "Sum",
+                 [["t", [["n", "Variable", [["s", r.choice(["a", "b", "c", "d"])]]], ["i", j + 2]]]]]
+                for j in range(n)]
+        other = list(kids)
+        r.shuffle(other)
+        t1, t2 = ["n", cls, [["t", kids]]], ["n", cls, [["t", other]]]
+        f = ["n", "Variable", [["s", "f"]]]
+        terms = [["n", "Call", [f, ["t", [t1]]]], ["n", "Sum", [["t", [t2, ["i", 1]]]]]]
+        return {"config": {"nv": False, "fault_run": False, "widecomm": n},
+                "ops": [["list", 0, terms, True], ["tag", 0],
+                        ["evalall", {"ev": 0, "cached": False, "vars": _gen_vars(r)}, 0, [0, 1]]]}
     if not nv and r.random() < 0.3:
         # churn: lists are built, tagged, evaluated and dropped (garbage collected) in many
         # rounds inside one process, so that anything the tagger or an evaluator keeps
@@ -280,6 +296,8 @@ def generate(seed, tier):
     evs = []
     for k in range(nev):
         evs.append({"ev": k, "cached": r.random() < 0.35, "vars": _gen_vars(r)})
+        if r.random() < 0.15:
+            evs[-1]["nochain"] = True
     for lid, n, wf in lists:
         if r.random() < 0.7:
             ops.append(["tag", lid] + ([r.choice(["append", "delete", "replace"])]
@@ -299,6 +317,9 @@ def generate(seed, tier):
                 e2 = {"ev": nextev, "cached": False, "vars": _gen_vars(r)}
                 nextev += 1
                 ops.append(["evalall2", e2, lid, list(order)])
+    for lid, n, wf in lists:
+        if r.random() < 0.15:
+            ops.append(["evaltuple", {"ev": 900 + lid, "cached": True, "vars": _gen_vars(r)}, lid])
     nops = r.randint(3, 20)
     for c in range(nops):
         lid, n, wf = r.choice(lists)
@@ -498,6 +519,13 @@ def execute(scenario, open_sigs):
         e.sim = SimState()
         e.log = []
         cls = CachedEvaluationMapper if desc["cached"] else EvaluationMapper
+        if desc.get("nochain") and not desc["cached"]:
+            class NoChainEval(EvaluationMapper):
+                """sets its context itself instead of calling the base constructor (as
+                pymbolic's own geometric-algebra evaluators do)"""
+                def __init__(self, context):
+                    self.context = context
+            cls = NoChainEval
         e.obj = cls(make_ctx(desc, e.sim, e.log))
         e.label = f"ev{k}"
         e.uncached = {}     # wrapper key -> started uncached computations
@@ -1006,6 +1034,38 @@ def execute(scenario, open_sigs):
                     if nested:
                         probe("nested_repeats")
                 events.append([opi, "evalall", desc["ev"], lid, len(allcomps)])
+                continue
+            if k == "evaltuple":
+                # the module-level entry point, handed all tagged expressions at once: the
+                # context functions are called as often as one evaluator instance calls them
+                _, desc, lid = op
+                L = get_list(lid)
+                if L is None or not L["orig"]:
+                    continue
+                ensure_tagged(L)
+                if violation is not None:
+                    break
+                from pymbolic.mapper.evaluator import evaluate
+                logs = []
+                outs = []
+                for how in ("entry", "instance"):
+                    sim, log = SimState(), []
+                    ctx = make_ctx(desc, sim, log)
+                    tup = tuple(L["tagged"])
+                    try:
+                        with np.errstate(all="ignore"):
+                            v = evaluate(tup, ctx) if how == "entry" else \
+                                CachedEvaluationMapper(ctx)(tup)
+                        outs.append("ok")
+                    except Exception as ex:  # noqa: BLE001
+                        outs.append(type(ex).__name__)
+                    logs.append(sorted(str(x[0]) for x in log))
+                probe("tuple_entry_point_evaluations")
+                if outs[0] != outs[1] or logs[0] != logs[1]:
+                    viol("C12/entry-point-repeats-work",
+                         {"list": lid, "outcomes": outs,
+                          "calls_entry_point": len(logs[0]), "calls_one_instance": len(logs[1])})
+                events.append([opi, "evaltuple", lid, len(logs[0])])
                 continue
             if k == "drop":
                 # nothing the simulator still holds may keep the list's objects alive
